@@ -77,3 +77,62 @@ Theorem C16_interval_unsat_cost :
     cost E (PInterval id start iv (Some (FDay []))) st dt = bound E (PInterval id start iv (Some (FDay []))).
 Proof. exact interval_unsat_cost. Qed.
 Print Assumptions C16_interval_unsat_cost.
+
+(* ---- the tie to the source by translation: coq/gen/GenProd.v is regenerated from src/eascheduler/producers/*.py and
+   helpers/time_replace.py on every run (tools/gen_prod.py); these theorems are re-checked against it.  [pknot E n] is
+   the generated code closed by dispatch on the class of the object; [lift] reads a model answer as an outcome of the
+   generated code (value + producer state / exception / out of fuel). *)
+From EAS Require GenRtProd GenProdEq.
+Theorem C16_generated_source_recognised : EASGen.GenProd.gen_prod_status_v = EASGen.GenProd.GenProdOk.
+Proof. exact GenProdEq.gen_prod_recognised. Qed.
+Print Assumptions C16_generated_source_recognised.
+(* every translated method other than IntervalProducer.get_next contains no `while`: [pknot] runs them with
+   [no_fuel], and they compute the model, whose loops are bounded by loop_bound / after_search_minutes; the generated
+   code is out of fuel exactly when the model is *)
+Theorem C16_generated_producers_are_model : forall E n p, wf_producer p -> (GenProdEq.rank p <= n)%nat ->
+  forall dt st, GenRtProd.r_get_next (GenProdEq.pknot E n) p dt st = GenRtProd.lift (get_next E p st dt).
+Proof. exact GenProdEq.gen_get_next_is_model. Qed.
+Print Assumptions C16_generated_producers_are_model.
+Theorem C16_generated_out_of_fuel_iff : forall E n p dt st, wf_producer p -> (GenProdEq.rank p <= n)%nat ->
+  (GenRtProd.r_get_next (GenProdEq.pknot E n) p dt st = None <-> exists s, get_next E p st dt = (OutOfFuel, s)).
+Proof. exact GenProdEq.gen_out_of_fuel_iff. Qed.
+Print Assumptions C16_generated_out_of_fuel_iff.
+(* the two `while` loops of IntervalProducer.get_next as generated: the walk back and the walk to the first grid
+   point after dt end after back_steps / fwd_steps rounds; the search ends with a value as soon as an admissible
+   grid point exists within the budget *)
+Theorem C16_generated_interval_terminates : forall E R fuel id start iv f dt st,
+  0 < iv -> GenProdEq.allow_ok E R f ->
+  let c := GenProdEq.start_point id start dt st in
+  (GenProdEq.back_steps c iv dt < fuel 1%nat)%nat ->
+  fuel 2%nat = (GenProdEq.fwd_steps (interval_back c iv dt) iv dt + Pos.to_nat (interval_fuel E))%nat ->
+  (exists k, (k < Pos.to_nat (interval_fuel E))%nat /\
+             allow_opt (pz E) f (interval_first (interval_back c iv dt) iv dt + Z.of_nat k * iv) = true) ->
+  exists g st', EASGen.GenProd.g_interval_get_next E R fuel id start iv f dt st = Some (st', GenRtProd.PRet g).
+Proof. exact GenProdEq.gen_interval_terminates. Qed.
+Print Assumptions C16_generated_interval_terminates.
+(* more fuel never changes an answer; less fuel is never a value *)
+Theorem C16_generated_interval_complete : forall E R fuel id start iv f dt st g st',
+  0 < iv -> GenProdEq.allow_ok E R f ->
+  get_next E (PInterval id start iv f) st dt = (Ok g, st') ->
+  let c := GenProdEq.start_point id start dt st in
+  (GenProdEq.back_steps c iv dt < fuel 1%nat)%nat ->
+  (GenProdEq.fwd_steps (interval_back c iv dt) iv dt + Pos.to_nat (interval_fuel E) <= fuel 2%nat)%nat ->
+  EASGen.GenProd.g_interval_get_next E R fuel id start iv f dt st = Some (st', GenRtProd.PRet g).
+Proof. exact GenProdEq.gen_interval_complete. Qed.
+Print Assumptions C16_generated_interval_complete.
+Theorem C16_generated_interval_sound : forall E R fuel id start iv f dt st g st',
+  0 < iv -> GenProdEq.allow_ok E R f ->
+  EASGen.GenProd.g_interval_get_next E R fuel id start iv f dt st = Some (st', GenRtProd.PRet g) ->
+  exists P, get_next (GenProdEq.with_interval_fuel E P) (PInterval id start iv f) st dt = (Ok g, st').
+Proof. exact GenProdEq.gen_interval_sound. Qed.
+Print Assumptions C16_generated_interval_sound.
+(* find_time_after_dst_switch and TimeReplacer.replace as generated *)
+Theorem C16_generated_find_after : forall E R fuel day tod s,
+  GenProdEq.coarse_pm (EASGen.GenProd.g_find_after E R fuel day tod s) = Some (s, GenRtProd.of_rres (find_after (pz E) day tod)).
+Proof. exact GenProdEq.gen_find_after_eq. Qed.
+Print Assumptions C16_generated_find_after.
+Theorem C16_generated_replace : forall E R fuel tr day s,
+  (forall d t s, GenRtProd.r_find_after R d t s = Some (s, GenRtProd.of_rres (find_after (pz E) d t))) ->
+  EASGen.GenProd.g_replace E R fuel (tr_tod tr) (tr_sk tr) (tr_rp tr) day s = Some (s, GenRtProd.of_rres (replace (pz E) tr day)).
+Proof. exact GenProdEq.gen_replace_eq. Qed.
+Print Assumptions C16_generated_replace.
